@@ -395,6 +395,64 @@ run_helpers(long item, void *arg)
                 if ((o = find_secret(stk, STK_SIZE, KEY_MAGIC)) >= 0)
                         viol("stack", "key-material", STK_SIZE - o, "single helper call", stk[o]);
         }
+        /* differential pass: the same helper call with key A and with key B (outputs at the same addresses): a 32-bit word of the
+         * register dump (GP + vector part) or of the stack that differs between the two runs is derived from the key; unless it is
+         * (a copy of) a word the helper wrote to its output objects - which the chunk oracle above covers - it is an intermediate
+         * value (round-key temporaries, key ^ ipad blocks, hash states) that the helper should have cleared; >= 8 such bytes */
+        {
+                static uint8_t SA[TDUMP_SIZE + 64 * 1024], OA[sizeof o1 + sizeof o2 + sizeof o3];
+                const size_t SSTK = 64 * 1024;
+                for (unsigned h = 0; h < sizeof H / sizeof H[0]; h++) {
+                        if (!H[h].fn)
+                                continue;
+                        snprintf(g_name, sizeof g_name, "helper:%s", H[h].name);
+                        for (int r = 0; r < 2; r++) {
+                                fill_rand(key, sizeof key, 9500 + (uint64_t) r);
+                                memset(stk, 0xA5, STK_SIZE);
+                                memset(o1, 0x77, sizeof o1);
+                                memset(o2, 0x77, sizeof o2);
+                                memset(o3, 0x77, sizeof o3);
+                                pcall(H[h].fn, H[h].a[0], H[h].a[1], H[h].a[2], H[h].a[3], H[h].a[4], H[h].a[5]);
+                                n_scans++;
+                                if (r == 0) {
+                                        memcpy(SA, dump, TDUMP_SIZE);
+                                        memcpy(SA + TDUMP_SIZE, stk + STK_SIZE - SSTK, SSTK);
+                                        memcpy(OA, o1, sizeof o1);
+                                        memcpy(OA + sizeof o1, o2, sizeof o2);
+                                        memcpy(OA + sizeof o1 + sizeof o2, o3, sizeof o3);
+                                        continue;
+                                }
+                                for (int w = 0; w < 2; w++) {
+                                        const uint8_t *cur = w ? stk + STK_SIZE - SSTK : dump;
+                                        const uint8_t *old = w ? SA + TDUMP_SIZE : SA;
+                                        const size_t n = w ? SSTK : DIFF_REGS_END;
+                                        long cnt = 0, first = -1;
+                                        for (size_t o = 0; o + 4 <= n; o += 4)
+                                                if (memcmp(cur + o, old + o, 4) && !memmem(OA, sizeof OA, old + o, 4)) {
+                                                        cnt += 4;
+                                                        if (first < 0)
+                                                                first = (long) o;
+                                                }
+                                        if (cnt >= 8) {
+                                                char sig[220];
+                                                snprintf(sig, sizeof sig, "C13|hdiff|%d|%s|%s", w, g_name, VARIANTS[g_v].name);
+                                                if (!rec_sig_ok(sig, 2))
+                                                        continue;
+                                                rec_begin("viol");
+                                                rec_s("site", "residue");
+                                                rec_s("where", w ? "stack" : "registers");
+                                                rec_s("secret", "key-derived-state");
+                                                rec_s("alg", g_name);
+                                                rec_s("variant", VARIANTS[g_v].name);
+                                                rec_s("schedule", "single helper call; key A vs key B");
+                                                rec_i("offset", w ? (long) SSTK - first : first);
+                                                rec_i("key_derived_bytes", cnt);
+                                                rec_end();
+                                        }
+                                }
+                        }
+                }
+        }
         stat_add("evaluations", n_scans);
         stat_add("distinct_nontrivial", n_scans);
         stat_add("helper_calls", n_scans);
@@ -991,6 +1049,12 @@ main(void)
                 u->h = alg_id(CH[c].h);
                 u->dir = CH[c].dir;
                 snprintf(u->name, sizeof u->name, "%s+%s/%s", CH[c].c, CH[c].h, u->dir ? "enc" : "dec");
+        }
+        if (getenv("C13_DIAGH")) { /* C13_DIAGH=<variant>: the helper passes of one variant, in this process (for a debugger) */
+                for (int v = 0; v < NVARIANTS; v++)
+                        if (!strcmp(VARIANTS[v].name, getenv("C13_DIAGH")))
+                                run_helpers(v, NULL);
+                return 0;
         }
         if (getenv("C13_DIAGP")) {
                 char un[96], vn[32];
